@@ -1013,7 +1013,9 @@ def suppress(ctx: Any) -> List[Ob]:
     obs.append(ob(R, f, f'{lookup_var} = lookup.get({rec})', 'the known answer consulted is the one equal to the record (identity per C20)', src_ok))
     # ... as a table: not listed -> not suppressed; listed -> suppressed exactly when the listed TTL is above half
     for listed, k_ttl in ((False, 0), (True, 61), (True, 60), (True, 10)):
-        atoms_k: Dict[str, Any] = {'.get()': Sym('known') if listed else None, f'{rec}.ttl': 120, f'{lookup_var}.ttl': k_ttl}
+        atoms_k: Dict[str, Any] = {'.get()': Sym('known') if listed else None, f'{rec}.ttl': 120}
+        if listed:
+            atoms_k[f'{lookup_var}.ttl'] = k_ttl  # (an absent answer has no TTL to read)
         oc_k, und_k = traces(ctx, f, atoms_k, lambda n, e: [], loop_bound=1)
         rets_k = {x[1] for t in oc_k for x in t if isinstance(x, tuple) and x[0] == 'ret'}
         want_k = listed and k_ttl > 60
